@@ -11,7 +11,7 @@ Route 2 (theorem about the model): `Lower.lowerFn_wf` — the model lowering of 
 break/continue sit inside loops and whose calls resolve is well-formed — tied by the structural correspondence
 (canonical IR of the implementation = canonical IR of the model) on the generated scalar-core programs."""
 import os, re, json, glob
-import common, implrun, progfam, proglib, wholelang
+import common, implrun, progfam, proglib, wholelang, gen_vec
 
 RULE = ("programs: seeded type-directed scalar-core programs (gen.py: all three loop forms nested, break/continue under ifs, "
         "compound and chained assignment, ++/--, arrays, structs, calls, recursion, overloads) + the whole-language corpus "
@@ -108,7 +108,8 @@ def explore(run, scale=1):
     # 2 generated programs (records carry wf0/wf1 and the structural diff)
     n = N_GEN[run.tier] * scale
     spec = [(n * 6 // 10, None, None), (n * 2 // 10, dict(max_depth=4, max_stmts=6), None),
-            (n * 2 // 10, dict(calls=False, structs=False, max_depth=4), None)]
+            (n * 2 // 10, dict(calls=False, structs=False, max_depth=4), None),
+            (n * 2 // 10, None, "vec")]
     for rec in progfam.evaluate(run, "C14", spec, want=("wf", "opt", "model", "struct"), ninputs=1):
         if not progfam.account(run, rec): continue
         res = []
